@@ -65,3 +65,19 @@ Definition fa_embed_qc (inv : nat -> mat Qc -> mat Qc) (max_iter n D d : nat) (A
   : list (list Qc) :=
   @fa_embed Qc QcOps inv (fun _ _ => qzero) (fun _ _ => false) max_iter n D d qzero
             (@mof Qc QcOps A0) (@mof Qc QcOps S).
+
+(* ---- on a range (Spe_Des_Model): pool row id = feature vector of sample id ---- *)
+From TK Require Import Spe_Des_Model.
+Definition fa_embed_des_qc (inv : nat -> mat Qc -> mat Qc) (max_iter D d : nat) (A0 pool : list (list Qc))
+           (range : list nat) : list (list Qc) :=
+  @fa_embed_des Qc QcOps inv (fun _ _ => qzero) (fun _ _ => false) max_iter D d qzero
+                (@mof Qc QcOps A0) (fun id => @mof Qc QcOps pool id) range.
+
+(* the never-stopping trajectory with fa_epsilon = eps: per round (X^T A_t, invC_t, quadratic term of ll_t);
+   same start as fa_core: A = memo(A0), sig = I *)
+Definition fa_observe_qc (inv : nat -> mat Qc -> mat Qc) (rounds D d : nat) (eps : Qc)
+           (A0 pool : list (list Qc)) (range : list nat)
+  : list (list (list Qc) * list (list Qc) * Qc) :=
+  @fa_observe Qc QcOps inv rounds (length range) D d eps
+              (@mof Qc QcOps (@fa_data_des Qc QcOps D (fun id => @mof Qc QcOps pool id) range))
+              (@memo Qc QcOps D d (@mof Qc QcOps A0)) (@mI Qc QcOps).
